@@ -99,6 +99,15 @@ func (s *Scenario) NewExec() *Exec {
 	w := &mc.World{DB: db, Spec: s.Genesis, Accts: map[string]*mc.Acct{}, ByAddr: map[string]string{}}
 	w.App = mc.NewAppOn(db, true, s.Genesis.SkipGenesisInvariants)
 	w.Height, w.Time = gc.height, gc.t
+	// warm-up: a freshly started process does one-time in-memory initialisation in its first
+	// BeginBlock (x/capability InitMemStore), which is charged to the block context's gas meter.
+	// Run one throw-away block and put the database back, so that every explored transition runs
+	// on an instance in "has been running" condition, whatever jobs it executed before.
+	{
+		pre := w.Snapshot()
+		w.RunBlock(time.Millisecond, nil)
+		w.Restore(pre)
+	}
 	w.Acct("V")
 	for _, a := range s.Genesis.Accounts {
 		w.Acct(a.Name)
@@ -168,6 +177,21 @@ type Options struct {
 	Owns        func(kind string) bool
 	Property    string
 	MaxViol     int
+	// NoOracle: execute and de-duplicate only (C01 twins); Record receives every transition in deterministic order
+	NoOracle bool
+	Record   func(path []string, obs *StepObs)
+	// OnNode is called (sequentially) for every new node with the parent's snapshot material (C01 crash enumeration)
+	OnEdge func(parent *EdgeCtx)
+}
+
+// EdgeCtx describes one explored edge for edge-based checks.
+type EdgeCtx struct {
+	Path   []string
+	Parent *mc.Snap
+	M      *model.State
+	Aux    map[string]int
+	Action *Action
+	Depth  int
 }
 
 type job struct {
@@ -325,7 +349,7 @@ func (s *Scenario) Explore(opt Options) (Stats, []Violation) {
 					e.W.Restore(p.snap)
 					e.M = p.m.Clone()
 					e.Aux = cloneAux(p.aux)
-					obs, discs := e.Run(&s.Actions[j.act], true)
+					obs, discs := e.Run(&s.Actions[j.act], !opt.NoOracle)
 					r := result{job: j, obs: obs, discs: discs}
 					if !obs.Halted {
 						r.key = e.Key(s.KeyTimeNs)
@@ -380,6 +404,12 @@ func (s *Scenario) Explore(opt Options) (Stats, []Violation) {
 				st.Outcomes[k+"/"+res]++
 			}
 			obs := r.obs
+			if opt.Record != nil {
+				opt.Record(names(path), &obs)
+			}
+			if opt.OnEdge != nil {
+				opt.OnEdge(&EdgeCtx{Path: names(path), Parent: p.snap, M: p.m, Aux: p.aux, Action: &s.Actions[r.job.act], Depth: depth})
+			}
 			classify(names(path), r.discs, &obs)
 			if r.obs.Halted {
 				st.DeadStates++
